@@ -109,6 +109,52 @@ def main() -> int:
         if not ok:
             viols.append({"kind": "identity", "a": "_math.ops", "g": "ladder", "case": cell,
                           "detail": f"ladder identities a|n>=sqrt(n)|n-1>, a^dagger a = n, [a,a^dagger]=1 fail at cutoff {d}"})
+    # ---- displacement / squeezing: conventions through the exact generators of Gates.tla (finite difference),
+    #      and the vacuum statistics the property names (rational relations only)
+    eps = 1e-4
+    for kind, key, ty, par, rawf in (("Displace", "dgen", F.Displace, "alpha", O.displacement_operator),
+                                      ("Squeeze", "sgen", F.Squeeze, "zeta", O.squeezing_operator)):
+        for rec in lib[key]:
+            z = complex(rec["p"], rec["q"])
+            want3 = speclib.mat(rec["op"]["m"], rec["op"]["s"])
+            for d in (3, 4, 6):
+                for source in ("Operation", "_math.ops"):
+                    def build(x):
+                        if source == "_math.ops":
+                            return np.asarray(rawf(d, x), dtype=complex)
+                        op = Operation(ty, **{par: x})
+                        op.dimensions = [d]
+                        return np.asarray(op.operator, dtype=complex)
+                    fd = (build(eps * z) - build(-eps * z)) / (2 * eps)
+                    # inside the exact block only entries whose intermediate levels stay below 3 are exact
+                    mask = np.zeros((d, d))
+                    mask[:3, :3] = 1
+                    if kind == "Displace" and d > 3:
+                        pass
+                    want = np.zeros((d, d), dtype=complex)
+                    want[:3, :3] = want3
+                    got = fd.copy()
+                    cell = {"gate": f"{kind}-generator", "source": source, "dims": [d], "params": {par: str(z)}}
+                    cells.append(cell)
+                    entries += 9
+                    diff = np.abs(got - want) * mask
+                    if diff.max() > 1e-6:
+                        r, c = np.unravel_index(np.argmax(diff), diff.shape)
+                        viols.append({"kind": "generator", "a": source, "g": kind, "case": cell,
+                                      "detail": f"d/d(eps) {kind}(eps*{z}) at 0, cutoff {d}: entry [{r},{c}] is {got[r, c]:.6g}, definition gives {want[r, c]:.6g}"})
+    for z in (0.5, 0.5j, 0.3 + 0.4j):
+        d = 30
+        vac = np.zeros(d, dtype=complex); vac[0] = 1
+        coh = np.asarray(O.displacement_operator(d, z), dtype=complex) @ vac
+        sq = np.asarray(O.squeezing_operator(d, z), dtype=complex) @ vac
+        cell = {"gate": "vacuum-statistics", "source": "_math.ops", "dims": [d], "params": {"z": str(z)}}
+        cells.append(cell)
+        entries += 2 * d
+        pn = np.abs(coh) ** 2
+        ok = all(abs(pn[n + 1] * (n + 1) - pn[n] * abs(z) ** 2) < 1e-9 for n in range(8)) and np.max(np.abs(sq[1::2])) < 1e-9
+        if not ok:
+            viols.append({"kind": "identity", "a": "_math.ops", "g": "vacuum-statistics", "case": cell,
+                          "detail": f"D({z})|0> is not Poissonian (p(n+1)/p(n) = |alpha|^2/(n+1)) or S({z})|0> populates odd numbers"})
     # ---- composite operators
     comp = {"CX": (C.CXPolarization, O.controlled_not_operator, [2, 2]), "CZ": (C.CZPolarization, O.controlled_z_operator, [2, 2]),
             "SWAP": (C.SwapPolarization, O.swap_operator, [2, 2]), "CSWAP": (C.CSwapPolarization, O.controlled_swap_operator, [2, 2, 2])}
